@@ -29,6 +29,18 @@ theorem decode_encode (b : Bundle) (h : b.wf = true) :
   obtain ⟨hp, hc⟩ := calculateCrc_wf b h
   exact decodeBundle_enc b.calculateCrc hp hc
 
+/-- **C01 (round trip, extended domain).** The same for bundles whose blocks carry CRC type codes
+    the library does not know (3..255; `CrcValue::Unknown`): such a block is written without a CRC
+    field and read back with the same code — on fragments (10 items) and non-fragments (8) alike. -/
+theorem decode_encode_x (b : Bundle) (h : b.wfX = true) :
+    decodeBundle (b.toCbor).2 = .ok (b.toCbor).1 := by
+  simp only [Bundle.wfX, Bool.and_eq_true, List.all_eq_true] at h
+  refine decodeBundle_encX b.calculateCrc (b.primary.updateCrc_wfX h.1) ?_
+  intro c hc
+  simp only [Bundle.calculateCrc, List.mem_map] at hc
+  obtain ⟨c0, hc0, rfl⟩ := hc
+  exact c0.updateCrc_wfX (h.2 c0 hc0)
+
 /-- erase stored CRC values, keeping the CRC type -/
 def eraseCrc (b : Bundle) : Bundle :=
   { primary := { b.primary with crc := CrcVal.ofType b.primary.crc.toCode },
@@ -71,6 +83,42 @@ theorem encode_idem (b : Bundle) (h : b.wf = true) :
     exact Canon.updateCrc_idem c (hck c hc)
   simp only [Bundle.toCbor, e]
 
+theorem Primary.updateCrc_idem_x (p : Primary) (hk : p.crc.knownX = true) :
+    p.updateCrc.updateCrc = p.updateCrc := by
+  cases hc : p.crc <;> simp [hc, CrcVal.knownX] at hk
+  case unknown k =>
+    have h0 : k ≠ 0 := by omega
+    have h1 : k ≠ 1 := by omega
+    have h2 : k ≠ 2 := by omega
+    simp [Primary.updateCrc, Primary.calcCrc, calcCrc, hc, CrcVal.toCode, h0, h1, h2]
+  all_goals simp [Primary.updateCrc, Primary.calcCrc, calcCrc, hc, CrcVal.toCode, CrcVal.reset, be16, be32]
+
+theorem Canon.updateCrc_idem_x (c : Canon) (hk : c.crc.knownX = true) :
+    c.updateCrc.updateCrc = c.updateCrc := by
+  cases hc : c.crc <;> simp [hc, CrcVal.knownX] at hk
+  case unknown k =>
+    have h0 : k ≠ 0 := by omega
+    have h1 : k ≠ 1 := by omega
+    have h2 : k ≠ 2 := by omega
+    simp [Canon.updateCrc, Canon.calcCrc, calcCrc, hc, CrcVal.toCode, h0, h1, h2]
+  all_goals simp [Canon.updateCrc, Canon.calcCrc, calcCrc, hc, CrcVal.toCode, CrcVal.reset, be16, be32]
+
+/-- **C01 (idempotence, extended domain).** -/
+theorem encode_idem_x (b : Bundle) (h : b.wfX = true) :
+    (b.toCbor).1.toCbor = ((b.toCbor).1, (b.toCbor).2) := by
+  simp only [Bundle.wfX, Bool.and_eq_true, List.all_eq_true] at h
+  have hpk : b.primary.crc.knownX = true := by
+    have := h.1; simp only [Primary.wfX, Bool.and_eq_true] at this; exact this.2
+  have hck : ∀ c ∈ b.canon, c.crc.knownX = true := by
+    intro c hc; have := h.2 c hc; simp only [Canon.wfX, Bool.and_eq_true] at this; exact this.2
+  have e : b.calculateCrc.calculateCrc = b.calculateCrc := by
+    simp only [Bundle.calculateCrc, Primary.updateCrc_idem_x _ hpk, List.map_map]
+    congr 1
+    apply List.map_congr_left
+    intro c hc
+    exact Canon.updateCrc_idem_x c (hck c hc)
+  simp only [Bundle.toCbor, e]
+
 /-- **C01 (determinism)** is definitional in the model: `toCbor` is a function of the bundle
     value. For the implementation it is part of the correspondence oracle (two encodings of two
     clones are compared). -/
@@ -91,5 +139,12 @@ def sample : Bundle :=
 
 example : sample.wf = true := by decide
 example : decodeBundle (sample.toCbor).2 = .ok (sample.toCbor).1 := decode_encode sample (by decide)
+
+/-- a fragment whose primary block has CRC type code 3 and whose payload block has code 255 -/
+def sampleX : Bundle :=
+  { sample with primary := { sample.primary with crc := .unknown 3 },
+                canon := sample.canon.map fun c => if c.btype = 1 then { c with crc := .unknown 255 } else c }
+example : sampleX.wfX = true ∧ sampleX.wf = false := by decide
+example : decodeBundle (sampleX.toCbor).2 = .ok (sampleX.toCbor).1 := decode_encode_x sampleX (by decide)
 
 end Bp7.C01
